@@ -458,4 +458,10 @@ def aoi(ctx):
     return res
 
 
-RULES = [fresnel, rotation_law, retarder, projectors, aoi]
+def no_stale(ctx):
+    from .common import stale_cache
+    return stale_cache(ctx, 'NO-STALE-STATE', ['JonesFresnel', 'JonesLinearDiattenuator', 'JonesLinearRetarder', 'FresnelCoating', 'BaseCoatingPolarized'],
+                       'the Jones matrix refers to an earlier call', min_methods=3)
+
+
+RULES = [no_stale, fresnel, rotation_law, retarder, projectors, aoi]
